@@ -36,6 +36,7 @@ theorem fs_refines_history {s : FS} (h : Inv s) :
     (∀ oid n, FileStore.history s oid n = History.history (abs s) oid n) ∧
     (∀ start stop back, FileStore.iterator s start stop back = History.iterator (abs s) start stop) ∧
     (∀ first last, FileStore.undoLog s first last = History.undoLog (abs s) first last) ∧
+    (∀ p first last, FileStore.undoLogF s p first last = History.undoLogF (abs s) p first last) ∧
     (∀ n, FileStore.lastInvalidations s n = History.lastInvalidations (abs s) n) ∧
     (∀ next, FileStore.recordIterNext s next = History.recordIterNext (abs s) next) :=
   ⟨Proofs.FileStoreRefine.load_refines h,
@@ -46,6 +47,7 @@ theorem fs_refines_history {s : FS} (h : Inv s) :
    Proofs.FileStoreRefine2.history_refines h,
    Proofs.FileStoreRefine2.iterator_refines h,
    Proofs.FileStoreRefine2.undoLog_refines h,
+   Proofs.FileStoreRefine2.undoLogF_refines h,
    Proofs.FileStoreRefine2.lastInvalidations_refines h,
    Proofs.FileStoreRefine2.recordIterNext_refines h⟩
 
@@ -147,6 +149,7 @@ theorem reopen_answers_same {s : FS} (h : Inv s) :
     (∀ oid n, FileStore.history (reopen s) oid n = FileStore.history s oid n) ∧
     (∀ start stop back, FileStore.iterator (reopen s) start stop back = FileStore.iterator s start stop back) ∧
     (∀ first last, FileStore.undoLog (reopen s) first last = FileStore.undoLog s first last) ∧
+    (∀ p first last, FileStore.undoLogF (reopen s) p first last = FileStore.undoLogF s p first last) ∧
     (∀ n, FileStore.lastInvalidations (reopen s) n = FileStore.lastInvalidations s n) ∧
     (∀ next, FileStore.recordIterNext (reopen s) next = FileStore.recordIterNext s next) := by
   have h' := Proofs.FileStoreStep.reopen_inv h
@@ -162,8 +165,9 @@ theorem reopen_answers_same {s : FS} (h : Inv s) :
          fun o n => (b.2.2.2.2.2.1 o n).trans (a.2.2.2.2.2.1 o n).symm,
          fun x y z => (b.2.2.2.2.2.2.1 x y z).trans (a.2.2.2.2.2.2.1 x y z).symm,
          fun x y => (b.2.2.2.2.2.2.2.1 x y).trans (a.2.2.2.2.2.2.2.1 x y).symm,
-         fun n => (b.2.2.2.2.2.2.2.2.1 n).trans (a.2.2.2.2.2.2.2.2.1 n).symm,
-         fun n => (b.2.2.2.2.2.2.2.2.2 n).trans (a.2.2.2.2.2.2.2.2.2 n).symm⟩
+         fun p x y => (b.2.2.2.2.2.2.2.2.1 p x y).trans (a.2.2.2.2.2.2.2.2.1 p x y).symm,
+         fun n => (b.2.2.2.2.2.2.2.2.2.1 n).trans (a.2.2.2.2.2.2.2.2.2.1 n).symm,
+         fun n => (b.2.2.2.2.2.2.2.2.2.2 n).trans (a.2.2.2.2.2.2.2.2.2.2 n).symm⟩
 
 /-! ### tie to constants translated from the source on every run (`ZodbModel/Generated.lean`) -/
 
@@ -213,6 +217,17 @@ example : FileStore.load exS 3 = .error .keyError := by decide             -- un
 example : (FileStore.iterator exS (some 3) (some 3) true).map (·.recs) = [[⟨1, some [7], some 1⟩]] := by
   decide
 example : (FileStore.undoLog exS 0 2).map (·.tid) = [4, 3] := by decide
+-- a filter selects first, the window counts the selected transactions
+example : (FileStore.undoLogF exS (fun e => e.user == [65] || e.desc == [66]) 0 1).map (·.tid) = [2] ∧
+    (FileStore.undoLogF exS (fun e => e.user == [65] || e.desc == [66]) 1 5).map (·.tid) = [1] := by decide
+
+/-- a transaction that is voted but not finished lies complete in the file, checkpoint flag set:
+    the iterator (which reads the file) must not report it -/
+def exVoted : FS := run exS [.begin none 0 32 [] [] [], .store 1 3 [11], .vote]
+example : (fileLog exVoted).map (·.tid) = [5, 4, 3, 2, 1] ∧ (fileLog exVoted).map (·.status) = [99, 32, 32, 32, 32] ∧
+    (FileStore.iterator exVoted none none false).map (·.tid) = [1, 2, 3, 4] ∧
+    (FileStore.iterator exVoted (some 4) none true).map (·.tid) = [4] ∧
+    (FileStore.iterator exVoted (some 5) (some 9) false).map (·.tid) = [] := by decide
 
 /-- the repaired quirk: an empty first transaction with 3 bytes of metadata ends at offset 38 < 39
     and is nevertheless listed by `undoLog` and found by `_txn_find` -/
